@@ -140,7 +140,7 @@ extra11 = {
 # additions of seed round 15
 extra15 = {
  "C03": "; a repository of another network is created first in the process",
- "C04": "; Cancel twice and Stop followed by Cancel at every ProcessTx call",
+ "C04": "; Cancel twice and Stop followed by Cancel at every ProcessTx call; announced counts larger than the stream by 2^8 .. 2^63+2^32",
  "C06": "; two waiting announcers polled at the same time by two threads after the timeout; back pressure: 1010 deliveries while the processor's first call takes 11 s (hand-over channel of 1000)",
  "C12": "; six-header histories over two unit-work slots with a mark before the Save / Clean that is stopped",
  "C08": "; seven-header histories (reorganisations between a branch of a branch and an unrelated later fork)",
